@@ -2,10 +2,10 @@
    structural theorems first; per-country equivalences are added below as they are proved) *)
 From Schwifty Require Import Lib.Base Lib.Lit Model.Clean Model.Data Model.Iban Model.Bban Model.National Model.Algorithms
   Model.Germany Model.Lookup.
-From Schwifty Require Import Spec.Iso13616 Spec.NationalPublished.
-From Schwifty Require Import Proofs.NumFacts Proofs.IbanFacts Proofs.NationalFacts Proofs.GenObligations.
+From Schwifty Require Import Spec.Iso13616 Spec.NationalPublished Proofs.TableOfJson.
+From Schwifty Require Import Proofs.NumFacts Proofs.IbanFacts Proofs.NationalFacts Proofs.NationalDigits Proofs.NationalCountries Proofs.GenObligations.
 From Schwifty Require Import Gen.Env Gen.IbanData Gen.IbanCfg Gen.ChecksumCfg Gen.GermanyTbl Gen.Banks.
-From Coq Require Import String.
+From Coq Require Import String Lia.
 
 (* national validation can only reject: whatever is accepted with it is accepted without it *)
 Theorem C06_only_rejects : forall e cfg T national s,
@@ -56,17 +56,27 @@ Proof. vm_cast_no_check (eq_refl std_alphabet). Qed.
 Lemma C06_onlyde_obl : algo_only_for (tx "DE") the_banks = true.
 Proof. vm_cast_no_check (eq_refl true). Qed.
 
-(* ISO 7064 mod 97-10 over the whole BBAN: Bosnia and Herzegovina, Montenegro, North Macedonia, Portugal,
-   Serbia, Slovenia, Timor-Leste.  Obligation per country: registered with that class, the accepted fields
-   followed by the two check digits tile the BBAN, the check field is numeric. *)
-Definition iso97_countries : list text := [tx "BA"; tx "ME"; tx "MK"; tx "PT"; tx "RS"; tx "SI"; tx "TL"].
-Definition iso97_obl (cc : text) : bool :=
+(* obligation of a two-check-digit family for one country: registered with that class, the accepted fields followed by
+   the two check digits tile the BBAN, the check field is numeric (+ a family-specific condition on the row) *)
+Definition family_obl (cls : string) (extra : row -> bool) (cc : text) : bool :=
   negb (text_eqb cc (tx "DE")) &&
-  match find_row the_table cc, registered_as registered cc "iso7064_mod97_10.DefaultAlgorithm" with
-  | Some r, Some accepts => layout_prefix r accepts 2 && ends_with_two_digits r
+  match find_row the_table cc, registered_as registered cc cls with
+  | Some r, Some accepts => layout_prefix r accepts 2 && ends_with_two_digits r && extra r
   | _, _ => false
   end.
-Lemma C06_iso97_obl : forallb iso97_obl iso97_countries = true.
+
+Ltac family_proof OBL cls compute pub bodyP Hcls Hval :=
+  intros cc r b Hin Er Hc; pose proof OBL as O; rewrite forallb_forall in O; specialize (O cc Hin);
+  unfold family_obl in O; rewrite Er in O; apply andb_true_iff in O as [Hde O]; apply negb_true_iff in Hde;
+  destruct (registered_as registered cc cls) as [accepts|] eqn:Ereg; [|discriminate];
+  apply andb_true_iff in O as [O Hextra]; apply andb_true_iff in O as [Hlay Hend];
+  refine (family_country the_env the_iban_cfg the_table the_banks nd_runs registered the_german
+            table_obl C06_alpha_obl C06_onlyde_obl cls compute pub bodyP cc r accepts b Hcls Hval _ Hde Er Hc Ereg Hlay Hend).
+
+(* ISO 7064 mod 97-10 over the whole BBAN: Bosnia and Herzegovina, Montenegro, North Macedonia, Portugal, Serbia,
+   Slovenia, Timor-Leste *)
+Definition iso97_countries : list text := [tx "BA"; tx "ME"; tx "MK"; tx "PT"; tx "RS"; tx "SI"; tx "TL"].
+Lemma C06_iso97_obl : forallb (family_obl "iso7064_mod97_10.DefaultAlgorithm" (fun _ => true)) iso97_countries = true.
 Proof. vm_cast_no_check (eq_refl true). Qed.
 
 Theorem C06_iso97 : forall cc r b,
@@ -74,15 +84,218 @@ Theorem C06_iso97 : forall cc r b,
   validate_national the_table the_algos (bank_code_entries the_banks) cc b =
   if pub_iso97 b then Ok true else Err EInvalidBBANChecksum.
 Proof.
-  intros cc r b Hin Er Hc. pose proof C06_iso97_obl as O. rewrite forallb_forall in O. specialize (O cc Hin).
-  unfold iso97_obl in O. rewrite Er in O. apply andb_true_iff in O as [Hde O]. apply negb_true_iff in Hde.
-  destruct (registered_as registered cc "iso7064_mod97_10.DefaultAlgorithm") as [accepts|] eqn:Ereg; [|discriminate].
-  apply andb_true_iff in O as [Hlay Hend].
-  exact (iso97_country the_env the_iban_cfg the_table the_banks nd_runs registered the_german
-           table_obl C06_alpha_obl C06_onlyde_obl cc r accepts b Hde Er Hc Ereg Hlay Hend).
+  family_proof C06_iso97_obl "iso7064_mod97_10.DefaultAlgorithm"%string (iso_compute (ic_alphabet the_iban_cfg)) pub_iso97
+    (fun body : text => body <> [] /\ forallb in_alpha body = true)
+    (national_class_iso the_env nd_runs (ic_alphabet the_iban_cfg))
+    (fun cs body d1 d2 Hcs (HB : body <> [] /\ forallb in_alpha body = true) D1 D2 =>
+       iso_default_validate the_iban_cfg C06_alpha_obl cs body d1 d2 Hcs (proj1 HB) (proj2 HB) D1 D2).
+  intros body d1 d2 _ Hne Hal. split; assumption.
 Qed.
 
+(* RIB key over an all-numeric BBAN: Mauritania, Tunisia *)
+Definition rib_countries : list text := [tx "MR"; tx "TN"].
+Lemma C06_rib_obl : forallb (family_obl "iso7064_mod97_10_variant.DefaultAlgorithm" all_numeric) rib_countries = true.
+Proof. vm_cast_no_check (eq_refl true). Qed.
+
+Theorem C06_rib : forall cc r b,
+  In cc rib_countries -> find_row the_table cc = Some r -> conforms_row r b = true ->
+  validate_national the_table the_algos (bank_code_entries the_banks) cc b =
+  if pub_rib_numeric b then Ok true else Err EInvalidBBANChecksum.
+Proof.
+  family_proof C06_rib_obl "iso7064_mod97_10_variant.DefaultAlgorithm"%string (variant_compute (ic_alphabet the_iban_cfg)) pub_rib_numeric
+    (fun body : text => body <> [] /\ forallb is_ascii_digit body = true)
+    (national_class_variant the_env nd_runs (ic_alphabet the_iban_cfg))
+    (fun cs body d1 d2 Hcs (HB : body <> [] /\ forallb is_ascii_digit body = true) D1 D2 =>
+       variant_default_validate the_iban_cfg C06_alpha_obl cs body d1 d2 Hcs (proj1 HB) (proj2 HB) D1 D2).
+  intros body d1 d2 Hb Hne _. split; [exact Hne|].
+  pose proof (numeric_row_digits r b Hextra Hc) as Hd. rewrite Hb, forallb_app in Hd.
+  apply andb_true_iff in Hd as [Hd _]. exact Hd.
+Qed.
+
+(* Belgium *)
+Definition be_row_ok (r : row) : bool := all_numeric r && Z.eqb (r_bban_length r) 12.
+Lemma C06_be_obl : forallb (family_obl "belgium.DefaultAlgorithm" be_row_ok) [tx "BE"] = true.
+Proof. vm_cast_no_check (eq_refl true). Qed.
+
+Theorem C06_be : forall cc r b,
+  In cc [tx "BE"] -> find_row the_table cc = Some r -> conforms_row r b = true ->
+  validate_national the_table the_algos (bank_code_entries the_banks) cc b =
+  if pub_be b then Ok true else Err EInvalidBBANChecksum.
+Proof.
+  family_proof C06_be_obl "belgium.DefaultAlgorithm"%string (be_compute (ic_alphabet the_iban_cfg)) pub_be
+    (fun body : text => List.length body = 10 /\ forallb is_ascii_digit body = true)
+    (national_class_be the_env nd_runs (ic_alphabet the_iban_cfg))
+    (fun cs body d1 d2 Hcs (HB : List.length body = 10 /\ forallb is_ascii_digit body = true) D1 D2 =>
+       be_default_validate the_iban_cfg C06_alpha_obl cs body d1 d2 Hcs (proj1 HB) (proj2 HB) D1 D2).
+  intros body d1 d2 Hb _ _. unfold be_row_ok in Hextra. apply andb_true_iff in Hextra as [Hnum H12].
+  apply Z.eqb_eq in H12.
+  pose proof (numeric_row_digits r b Hnum Hc) as Hd. rewrite Hb, forallb_app in Hd.
+  apply andb_true_iff in Hd as [Hd _]. split; [|exact Hd].
+  assert (Hl : len b = r_bban_length r).
+  { unfold conforms_row in Hc. destruct (row_kinds r); [|discriminate]. apply andb_true_iff in Hc as [Hl _].
+    apply Z.eqb_eq. exact Hl. }
+  rewrite Hb in Hl. unfold len in Hl. rewrite app_length in Hl. simpl in Hl. lia.
+Qed.
+
+(* ---- weighted-sum countries: positions the published rule presumes are obligations on the regenerated table ---- *)
+
+Lemma C06_nd_obl : nd_ok nd_runs = true.
+Proof. vm_cast_no_check (eq_refl true). Qed.
+
+Definition comps_at (cc : text) (cls : string) (accepts : list text) (n : Z) (ps : list (text * (nat * nat))) : bool :=
+  negb (text_eqb cc (tx "DE")) &&
+  match find_row the_table cc, registered_as registered cc cls with
+  | Some r, Some acc =>
+    texts_eqb acc accepts && all_numeric r && Z.eqb (r_bban_length r) n
+    && forallb (fun p => pos_is r (fst p) (fst (snd p)) (snd (snd p))) ps
+  | _, _ => false
+  end.
+
+Ltac country_setup OBL cls :=
+  intros r b Er Hc; pose proof OBL as O; unfold comps_at in O; rewrite Er in O;
+  apply andb_true_iff in O as [Hde O]; apply negb_true_iff in Hde;
+  destruct (registered_as registered _ cls) as [acc|] eqn:Ereg; [|discriminate];
+  apply andb_true_iff in O as [O Hpos]; apply andb_true_iff in O as [O Hn]; apply andb_true_iff in O as [Hacc Hnum];
+  apply Z.eqb_eq in Hn;
+  pose proof (numeric_row_digits r b Hnum Hc) as Hd;
+  assert (Hl : len b = r_bban_length r)
+    by (unfold conforms_row in Hc; destruct (row_kinds r); [|discriminate]; apply andb_true_iff in Hc as [Hl0 _];
+        apply Z.eqb_eq; exact Hl0);
+  rewrite Hn in Hl; unfold len in Hl;
+  cbn [forallb fst snd] in Hpos; repeat (apply andb_true_iff in Hpos as [? Hpos]); unfold the_algos.
+
+Lemma texts_eqb_eq a : forall b, texts_eqb a b = true -> a = b.
+Proof.
+  induction a as [|x a IH]; intros [|y b] H; cbn in H; try reflexivity; try discriminate.
+  apply andb_true_iff in H as [H1 H2]. apply Proofs.CleanFacts.text_eqb_eq in H1. subst. f_equal. apply IH. exact H2.
+Qed.
+
+(* Poland *)
+Lemma C06_pl_obl : comps_at (tx "PL") "poland.DefaultAlgorithm" [k_bank; k_branch] 24
+  [(k_bank, (0, 3)); (k_branch, (3, 7)); (k_national, (7, 8))] = true.
+Proof. vm_cast_no_check (eq_refl true). Qed.
+
+Theorem C06_pl : forall r b,
+  find_row the_table (tx "PL") = Some r -> conforms_row r b = true ->
+  validate_national the_table the_algos (bank_code_entries the_banks) (tx "PL") b =
+  if pub_pl b then Ok true else Err EInvalidBBANChecksum.
+Proof.
+  country_setup C06_pl_obl "poland.DefaultAlgorithm"%string.
+  apply texts_eqb_eq in Hacc. subst acc.
+  rewrite (national_reduce the_env the_iban_cfg the_table the_banks nd_runs registered the_german C06_onlyde_obl
+             "poland.DefaultAlgorithm" _ r _ b (mk [k_bank; k_branch] (pl_compute nd_runs) None) Hde Er Ereg eq_refl).
+  cbv zeta. cbn [al_accepts al_validate mk map].
+  rewrite !(comp_sl r _ _ _ b) by (first [eassumption|lia]).
+  rewrite (pl_validate nd_runs C06_nd_obl b) by (first [assumption|lia]). cbn [bind]. reflexivity.
+Qed.
+
+(* Estonia *)
+Lemma C06_ee_obl : comps_at (tx "EE") "estonia.DefaultAlgorithm" [k_branch; k_account] 16
+  [(k_branch, (2, 4)); (k_account, (4, 15)); (k_national, (15, 16))] = true.
+Proof. vm_cast_no_check (eq_refl true). Qed.
+
+Theorem C06_ee : forall r b,
+  find_row the_table (tx "EE") = Some r -> conforms_row r b = true ->
+  validate_national the_table the_algos (bank_code_entries the_banks) (tx "EE") b =
+  if pub_ee b then Ok true else Err EInvalidBBANChecksum.
+Proof.
+  country_setup C06_ee_obl "estonia.DefaultAlgorithm"%string.
+  apply texts_eqb_eq in Hacc. subst acc.
+  rewrite (national_reduce the_env the_iban_cfg the_table the_banks nd_runs registered the_german C06_onlyde_obl
+             "estonia.DefaultAlgorithm" _ r _ b (mk [k_branch; k_account] (ee_compute nd_runs) None) Hde Er Ereg eq_refl).
+  cbv zeta. cbn [al_accepts al_validate mk map].
+  rewrite !(comp_sl r _ _ _ b) by (first [eassumption|lia]).
+  rewrite (ee_validate nd_runs C06_nd_obl b) by (first [assumption|lia]). cbn [bind]. reflexivity.
+Qed.
+
+(* Spain *)
+Lemma C06_es_obl : comps_at (tx "ES") "spain.DefaultAlgorithm" [k_bank; k_branch; k_account] 20
+  [(k_bank, (0, 4)); (k_branch, (4, 8)); (k_account, (10, 20)); (k_national, (8, 10))] = true.
+Proof. vm_cast_no_check (eq_refl true). Qed.
+
+Theorem C06_es : forall r b,
+  find_row the_table (tx "ES") = Some r -> conforms_row r b = true ->
+  validate_national the_table the_algos (bank_code_entries the_banks) (tx "ES") b =
+  if pub_es b then Ok true else Err EInvalidBBANChecksum.
+Proof.
+  country_setup C06_es_obl "spain.DefaultAlgorithm"%string.
+  apply texts_eqb_eq in Hacc. subst acc.
+  rewrite (national_reduce the_env the_iban_cfg the_table the_banks nd_runs registered the_german C06_onlyde_obl
+             "spain.DefaultAlgorithm" _ r _ b (mk [k_bank; k_branch; k_account] (es_compute nd_runs) None) Hde Er Ereg eq_refl).
+  cbv zeta. cbn [al_accepts al_validate mk map].
+  rewrite !(comp_sl r _ _ _ b) by (first [eassumption|lia]).
+  rewrite (es_validate nd_runs C06_nd_obl b) by (first [assumption|lia]). cbn [bind]. reflexivity.
+Qed.
+
+(* Norway: a number for which no check digit exists is rejected with InvalidAccountCode *)
+Lemma C06_no_obl : comps_at (tx "NO") "norway.DefaultAlgorithm" [k_bank; k_account] 11
+  [(k_bank, (0, 4)); (k_account, (4, 10)); (k_national, (10, 11))] = true.
+Proof. vm_cast_no_check (eq_refl true). Qed.
+
+Theorem C06_no : forall r b,
+  find_row the_table (tx "NO") = Some r -> conforms_row r b = true ->
+  exists ex, validate_national the_table the_algos (bank_code_entries the_banks) (tx "NO") b =
+  if pub_no b then Ok true else Err ex.
+Proof.
+  country_setup C06_no_obl "norway.DefaultAlgorithm"%string.
+  apply texts_eqb_eq in Hacc. subst acc.
+  rewrite (national_reduce the_env the_iban_cfg the_table the_banks nd_runs registered the_german C06_onlyde_obl
+             "norway.DefaultAlgorithm" _ r _ b (mk [k_bank; k_account] (no_compute nd_runs) None) Hde Er Ereg eq_refl).
+  cbv zeta. cbn [al_accepts al_validate mk map].
+  rewrite !(comp_sl r _ _ _ b) by (first [eassumption|lia]).
+  destruct (no_validate nd_runs C06_nd_obl b ltac:(lia) Hd) as [ex Hex]. rewrite Hex.
+  destruct (pub_no b); [exists EInvalidBBANChecksum; reflexivity|].
+  destruct ex as [x|]; [exists x|exists EInvalidBBANChecksum]; reflexivity.
+Qed.
+
+(* Czechia, Slovakia *)
+Lemma C06_cz_obl : forallb (fun cc => comps_at cc "czech_republic.DefaultAlgorithm" [k_branch; k_account] 20
+  [(k_branch, (4, 10)); (k_account, (10, 20))]) [tx "CZ"; tx "SK"] = true.
+Proof. vm_cast_no_check (eq_refl true). Qed.
+
+Theorem C06_cz : forall cc r b, In cc [tx "CZ"; tx "SK"] ->
+  find_row the_table cc = Some r -> conforms_row r b = true ->
+  validate_national the_table the_algos (bank_code_entries the_banks) cc b =
+  if pub_cz b then Ok true else Err EInvalidBBANChecksum.
+Proof.
+  intros cc r b Hin. pose proof C06_cz_obl as OB. rewrite forallb_forall in OB. specialize (OB cc Hin). revert r b.
+  country_setup OB "czech_republic.DefaultAlgorithm"%string.
+  apply texts_eqb_eq in Hacc. subst acc.
+  rewrite (national_reduce the_env the_iban_cfg the_table the_banks nd_runs registered the_german C06_onlyde_obl
+             "czech_republic.DefaultAlgorithm" _ r _ b (mk [k_branch; k_account] (fun _ => Ok []) (Some (cz_validate nd_runs))) Hde Er Ereg eq_refl).
+  cbv zeta. cbn [al_accepts al_validate mk map].
+  rewrite !(comp_sl r _ _ _ b) by (first [eassumption|lia]).
+  rewrite (cz_validate_eq nd_runs C06_nd_obl b _ Hd). cbn [bind]. reflexivity.
+Qed.
+
+(* Iceland *)
+Lemma C06_is_obl : comps_at (tx "IS") "iceland.DefaultAlgorithm" [tx "account_holder_id"] 22
+  [(tx "account_holder_id", (12, 22))] = true.
+Proof. vm_cast_no_check (eq_refl true). Qed.
+
+Theorem C06_is : forall r b,
+  find_row the_table (tx "IS") = Some r -> conforms_row r b = true ->
+  validate_national the_table the_algos (bank_code_entries the_banks) (tx "IS") b =
+  if pub_is b then Ok true else Err EInvalidBBANChecksum.
+Proof.
+  country_setup C06_is_obl "iceland.DefaultAlgorithm"%string.
+  apply texts_eqb_eq in Hacc. subst acc.
+  rewrite (national_reduce the_env the_iban_cfg the_table the_banks nd_runs registered the_german C06_onlyde_obl
+             "iceland.DefaultAlgorithm" _ r _ b (mk [tx "account_holder_id"] (is_compute nd_runs) (Some (is_validate nd_runs))) Hde Er Ereg eq_refl).
+  cbv zeta. cbn [al_accepts al_validate mk map].
+  rewrite !(comp_sl r _ _ _ b) by (first [eassumption|lia]).
+  rewrite (is_validate_eq nd_runs C06_nd_obl b _ ltac:(lia) Hd). cbn [bind]. reflexivity.
+Qed.
+
+Print Assumptions C06_pl.
+Print Assumptions C06_ee.
+Print Assumptions C06_es.
+Print Assumptions C06_no.
+Print Assumptions C06_cz.
+Print Assumptions C06_is.
 Print Assumptions C06_iso97.
+Print Assumptions C06_rib.
+Print Assumptions C06_be.
 Print Assumptions C06_only_rejects.
 Print Assumptions C06_returns_true.
 Print Assumptions C06_unaffected.
